@@ -369,7 +369,7 @@ def _collect_files(ctx, limit):
     edge = os.path.join(wd, 'edge')
     os.makedirs(edge, exist_ok=True)
     for i, (en, txt) in enumerate([(6, 'int:iterlimit = 5'), (6, 'abc'), (6, 'int:iterlimit'), (6, 'int'), (6, 'bool:lifting = true # c'), (6, ''), (5, 'abc\n'), (5, 'x'), (5, 'int\n'),
-                                   (5, 'int:iterlimit = 5\nabc\n'), (5, ''), (0, ''), (0, 'm'), (0, '\n'), (2, 'N'), (2, '*'), (2, 'NAME'), (4, ''), (4, 'NAME'), (0, 'max\n x\nst\n x<=1\nend')]):
+                                   (5, 'int:iterlimit = 5\nabc\n'), (5, ''), (0, ''), (0, 'm'), (0, '\n'), (2, 'NAME\nENDATA\n'), (2, '*\nENDATA\n'), (4, 'NAME\nENDATA\n'), (0, 'max\n x\nst\n x<=1\nend')]):
         p = os.path.join(edge, 'edge%02d.txt' % i)
         open(p, 'w').write(txt)
         files.append((en, i & 1, p))
@@ -403,8 +403,8 @@ def valgrind_subset(ctx):
         lp, fl = item
         tmp = lp + '.tmp'
         os.makedirs(tmp, exist_ok=True)
-        cmd = ['valgrind', '--error-exitcode=9', '--track-origins=yes', '-q', '--num-callers=30', ctx['bin'], '--prop', 'C13', '--seed', '0', '--from', '0', '--to', str(len(fl)),
-               '--tier', ctx['tier'], '--tmpdir', tmp, '--sub', 'list', '--list', lp, '--timescale', '80', '--mark', '1']
+        cmd = ['valgrind', '--error-exitcode=9', '--track-origins=yes', '-q', '--num-callers=30', '--trace-children=yes', ctx['bin'], '--prop', 'C13', '--seed', '0', '--from', '0', '--to', str(len(fl)),
+               '--tier', ctx['tier'], '--tmpdir', tmp, '--sub', 'list', '--list', lp, '--timescale', '50', '--mark', '1']
         try:
             r = subprocess.run(cmd, stdout=subprocess.PIPE, stderr=subprocess.PIPE, timeout=3600, cwd=tmp)
         except subprocess.TimeoutExpired:
@@ -461,7 +461,7 @@ def strace_faults(ctx):
         targets.append((gzp, 2))
     except OSError:
         pass
-    targets = targets[:max(3, ctx['cases'])]
+    targets = targets[:max(1, ctx['cases'])]
     fired_total = 0
     for ti, (path, en) in enumerate(targets):
         tmp = os.path.join(wd, 't%d' % ti)
